@@ -472,7 +472,43 @@ var translationDrops = []string{
 	"calls into dependencies: replaced by the assumed contracts listed in trusted_base",
 }
 
-func extraEvidence(w *World, prop, tier string, cov map[string]interface{}) {}
+// extraEvidence: the contract status of EVERY function of the module with a body (so that "functions under contract" can be read
+// against what is not under contract at all).
+func extraEvidence(w *World, prop, tier string, cov map[string]interface{}) {
+	counts := map[string]int{}
+	var none, trustedFns, partial []string
+	for k, fi := range w.Funcs {
+		if fi.Decl == nil || fi.Decl.Body == nil {
+			continue
+		}
+		st := "without_contract"
+		if fc := w.CS.Funcs[k]; fc != nil {
+			switch {
+			case fc.Trusted:
+				st = "trusted_contract"
+				trustedFns = append(trustedFns, k)
+			case len(fc.Only) > 0:
+				st = "partially_discharged_contract"
+				partial = append(partial, k)
+			default:
+				st = "fully_discharged_contract"
+			}
+		} else {
+			none = append(none, k)
+		}
+		counts[st]++
+	}
+	sort.Strings(none)
+	sort.Strings(trustedFns)
+	sort.Strings(partial)
+	cov["module_functions"] = map[string]interface{}{
+		"counts":                        counts,
+		"without_contract":              none,
+		"trusted_contract":              trustedFns,
+		"partially_discharged_contract": partial,
+		"note":                          "whole module (geojson, geometry, geo), all properties together; this check discharges the subset tagged with its property",
+	}
+}
 
 func expectedDead(fc *FuncContract, name string) bool {
 	if fc == nil {
